@@ -1,18 +1,40 @@
 package rtppack
 
-import "github.com/cnotch/ipchub/av/format/rtp"
+import (
+	"bufio"
+	"bytes"
+	"encoding/binary"
+
+	"github.com/cnotch/ipchub/av/format/rtp"
+)
 
 // ToIpchub builds the value ipchub's RTSP reader hands to a stream for an
-// interleaved frame (av/format/rtp/packet.go ReadPacket): Channel, Data, and —
-// for the two media channels only — the parsed fixed header. This is the only
-// place in the package that touches ipchub. It panics when a media packet does
-// not parse (ReadPacket would have returned an error and produced no Packet).
+// interleaved frame, by the way a received packet really takes: raw is framed
+// as "$ channel length" (RFC 2326 §10.12) and read back with rtp.ReadPacket, so
+// the RTP header is parsed by ipchub's own code (Channel, Data, and — for the
+// two media channels — Header incl. PayloadOffset), not pre-filled by the
+// harness. This is the only place in the package that touches ipchub. It
+// panics when ipchub refuses the packet (every packet built by this package is
+// well-formed). Packets too long for the 16-bit frame length (> 65535 bytes)
+// cannot be framed; for those the header is parsed with Header.Unmarshal.
 func ToIpchub(channel byte, raw []byte) *rtp.Packet {
-	p := &rtp.Packet{Channel: channel, Data: raw}
-	if channel == rtp.ChannelVideo || channel == rtp.ChannelAudio {
-		if err := p.Header.Unmarshal(raw); err != nil {
-			panic("rtppack.ToIpchub: " + err.Error())
+	if len(raw) > 0xffff {
+		p := &rtp.Packet{Channel: channel, Data: raw}
+		if channel == rtp.ChannelVideo || channel == rtp.ChannelAudio {
+			if err := p.Header.Unmarshal(raw); err != nil {
+				panic("rtppack.ToIpchub: " + err.Error())
+			}
 		}
+		return p
+	}
+	framed := make([]byte, 4+len(raw))
+	framed[0] = rtp.TransferPrefix
+	framed[1] = channel
+	binary.BigEndian.PutUint16(framed[2:], uint16(len(raw)))
+	copy(framed[4:], raw)
+	p, err := rtp.ReadPacket(bufio.NewReaderSize(bytes.NewReader(framed), 16), rtp.DefaultChannelConfig)
+	if err != nil {
+		panic("rtppack.ToIpchub: ipchub refused a well-formed packet: " + err.Error())
 	}
 	return p
 }
